@@ -64,6 +64,13 @@ def nfa_text(a, name="A", sfx=False):
     return "\n".join(lines) + "\n"
 
 
+def put(path, txt, i):
+    """write an input file for the tool; every fifth case gets files WITHOUT a trailing newline (legal text)"""
+    if i % 5 == 0 and txt.endswith("\n"):
+        txt = txt[:-1]
+    open(path, "w").write(txt)
+
+
 def run_vata(args, timeout=20):
     try:
         r = subprocess.run([VATA] + args, stdout=subprocess.PIPE, stderr=subprocess.PIPE, text=True, timeout=timeout)
@@ -93,8 +100,8 @@ def incl_events(cases, rd, repr_="expl"):
     def one(ic):
         i, c = ic
         fa, fb = os.path.join(d, "a%d.txt" % i), os.path.join(d, "b%d.txt" % i)
-        open(fa, "w").write(ta_text(c["A"], "A"))
-        open(fb, "w").write(ta_text(c["B"], "B"))
+        put(fa, ta_text(c["A"], "A"), i)
+        put(fb, ta_text(c["B"], "B"), i)
         v = []
         pre = [["-p"], ["-s"], [], [], [], []][i % 6] if repr_ == "expl" else []
         for o in SEL_OPTS:
@@ -116,8 +123,8 @@ def faincl_events(cases, rd):
     def one(ic):
         i, c = ic
         fa, fb = os.path.join(d, "fa%d.txt" % i), os.path.join(d, "fb%d.txt" % i)
-        open(fa, "w").write(nfa_text(c["A"], "A"))
-        open(fb, "w").write(nfa_text(c["B"], "B"))
+        put(fa, nfa_text(c["A"], "A"), i)
+        put(fb, nfa_text(c["B"], "B"), i)
         out, st = run_vata(["-r", "expl_fa", "-o", opts[c["sel"]], "incl", fa, fb], timeout=10)
         os.remove(fa)
         os.remove(fb)
@@ -141,7 +148,7 @@ def sim_events(cases, rd):
     def one(ic):
         i, c = ic
         fa = os.path.join(d, "s%d.txt" % i)
-        open(fa, "w").write(ta_text(c["A"], "A"))
+        put(fa, ta_text(c["A"], "A"), i)
         res = {"A_after": c["A"]}
         outcome = "ok"
         for key in c.get("dirs", ["down"]):
@@ -239,11 +246,11 @@ def ta_op_events(cases, rd, repr_="expl"):
             lines = txt.splitlines()
             lines[0] = "Ops " + " ".join("%s:%d" % (s[0], s[1]) for s in c["syms"])
             txt = "\n".join(lines) + "\n"
-        open(fa, "w").write(txt)
+        put(fa, txt, i)
         files = [fa]
         if "B" in c and cmd in ("union", "isect"):
             fb = os.path.join(d, "ob%d.txt" % i)
-            open(fb, "w").write(ta_text(c["B"], "B", sfx))
+            put(fb, ta_text(c["B"], "B", sfx), i)
             files.append(fb)
         args = ["-r", repr_]
         if cmd == "load-p":
@@ -301,11 +308,11 @@ def fa_op_events(cases, rd):
         cmd = c["cmd"]
         fa = os.path.join(d, "na%d.txt" % i)
         sfx = (True if i % 3 == 0 else ("long" if i % 3 == 1 and i % 2 == 0 else False))
-        open(fa, "w").write(nfa_text(c["A"], "A", sfx))
+        put(fa, nfa_text(c["A"], "A", sfx), i)
         files = [fa]
         if "B" in c and cmd in ("union", "isect"):
             fb = os.path.join(d, "nb%d.txt" % i)
-            open(fb, "w").write(nfa_text(c["B"], "B", sfx))
+            put(fb, nfa_text(c["B"], "B", sfx), i)
             files.append(fb)
         args = ["-r", "expl_fa"] + (["-p", "load"] if cmd == "load-p" else ["-s", "load"] if cmd == "load-s" else [cmd])
         out, st = run_vata(args + files)
@@ -345,8 +352,8 @@ def bddincl_events(cases, rd):
     def one(ic):
         i, c = ic
         fa, fb = os.path.join(d, "ba%d.txt" % i), os.path.join(d, "bb%d.txt" % i)
-        open(fa, "w").write(ta_text(c["A"], "A"))
-        open(fb, "w").write(ta_text(c["B"], "B"))
+        put(fa, ta_text(c["A"], "A"), i)
+        put(fb, ta_text(c["B"], "B"), i)
         v = {}
         for k, (r, o) in sels.items():
             out, st = run_vata(["-r", r, "-o", o, "incl", fa, fb])
